@@ -381,8 +381,23 @@ func (g *genCtx) epoch() uint64 {
 	}
 }
 
+// slot: 15% the first slot of a fork activation epoch or the last slot before it, else a slot of
+// an epoch from the epoch mix (first / last slot of the epoch in half of the cases).
 func (g *genCtx) slot() eth2p0.Slot {
-	return eth2p0.Slot(g.epoch()*g.spe + uint64(g.rng.Intn(int(g.spe))))
+	if len(g.bounds) > 0 && g.rng.Intn(100) < 15 {
+		first := g.bounds[g.rng.Intn(len(g.bounds))] * g.spe
+
+		return eth2p0.Slot(first - uint64(g.rng.Intn(2)))
+	}
+	off := uint64(g.rng.Intn(int(g.spe)))
+	switch g.rng.Intn(4) {
+	case 0:
+		off = 0
+	case 1:
+		off = g.spe - 1
+	}
+
+	return eth2p0.Slot(g.epoch()*g.spe + off)
 }
 
 type kind struct {
